@@ -452,7 +452,8 @@ impl<'p> Ctx<'p> {
                 if !c.pin_body.is_empty() {
                     let (s0, e0) = br(b.span());
                     let body = squash(self.text(s0 + 1, e0 - 1));
-                    if body != squash(&c.pin_body) {
+                    let want = if c.pin_body.trim() == "<empty>" { String::new() } else { squash(&c.pin_body) };
+                    if body != want {
                         self.out.errors.push(format!(
                             "lost anchor: body of `{}` is no longer the text its assumed spec was written for: `{}`", key, body
                         ));
